@@ -27,6 +27,16 @@ META = {
     "contains every projected pixel) is a hypothesis, sampled by the oracle inside the CRSs' areas of use; "
     "pyproj/PROJ, shapely buffer and the UTM database query are trusted parameters; IEEE rounding sampled.",
     "technique": "Lean 4 proof over hand model + differential correspondence with real code + pyproj oracle",
+    "inventory": "Modelled (Model/C11.lean): compute_output_geobox (fast path, resolution modes, same-units rule, fit average, "
+    "round_resolution, shape precedence, forwarding to from_bbox), from_bbox/_norm_anchor/snap_grid/_snap_edge/_snap_edge_pos/maybe_int/"
+    "split_float (proved identical to the C08/C20 models in Props/C11C08.lean), res_ (scalar -> (r,-r)), Python round(x,0), norm_crs "
+    "utm/utm-n/utm-s incl. spelling rule, _pick_best_crs (as repaired), GeoBoxBase.footprint in the linear (own-CRS) case "
+    "(linearFootprintBBox, extentCorners).  NOT modelled (parameters captured from the real run): Geometry.to_crs / densification "
+    "(_reproject_resolution, segmentize), shapely buffer with rounded corners for generally rotated sources (bbox only bounded: "
+    "contains the corners), gbox.resolution of rotated sources (decompose_rws, sqrt), center_pixel / native_pix_transform / "
+    "get_scale_at_point / affine_from_pts (the fit inputs cpRes, fitScale), CRS.utm's pyproj database query and CRS.valid_region "
+    "(candidate list and keys are inputs), CRS.units / CRS.__eq__ (sameUnits / sameCrs flags are inputs, judged with pyproj by the "
+    "harness), BoundingBox._norm_bbox for 'utm*' strings inside from_bbox, GCPGeoBox sources (isinstance guard of the fast path).",
     "design_ref": "DESIGN.md §4 C11",
 }
 
@@ -843,6 +853,15 @@ def judge(R, mods, g, dst, mode, shape, tight, anchor, tol, rnd, out, spy, case,
         shape_oracle(R, shape, out, tight, anchor, case, sig, tol)
     # footprint bbox the code used (captured) -> cover / minimal / alignment with exact rationals
     bb = spy.final["bbox"] if spy.final is not None else None
+    if bb is not None and same_crs:
+        # the hypothesis of theorem out_encloses_every_pixel_linear, checked exactly: in the linear (own-CRS) case the
+        # footprint box contains the four corners of the source extent
+        sa = g.affine
+        sny, snx = g.shape
+        l_, b_, r_, t_ = (F(v) for v in bb.bbox)
+        cs = [(F(sa.a) * x + F(sa.b) * y + F(sa.c), F(sa.d) * x + F(sa.e) * y + F(sa.f)) for x in (0, snx) for y in (0, sny)]
+        R.oracle(all(l_ <= px_ <= r_ and b_ <= py_ <= t_ for px_, py_ in cs), "footprint-bbox-contains-corners", case,
+                 f"own-CRS footprint bbox {bb.bbox} does not contain the source corners {[(float(a_), float(b2)) for a_, b2 in cs]}", sig=sig)
     xs = sorted([c, c + a * nx])
     ys = sorted([f, f + e * ny])
     pa, pe = abs(a), abs(e)
@@ -914,6 +933,29 @@ def judge(R, mods, g, dst, mode, shape, tight, anchor, tol, rnd, out, spy, case,
                          f"{int(bad.sum())} of {bad.size} projected pixel corners fall outside the output grid; e.g. ({px[k]}, {py[k]}) is {max(over):.3f} output pixels outside", sig=sig)
             else:
                 R.oracle(True, "encloses-every-pixel", case, "", sig=sig)
+
+
+def footprint_part(R: Run, mods):
+    """GeoBoxBase.footprint in the linear case (destination CRS = own CRS) against the model's linearFootprintBBox:
+    axis-aligned, mirrored, south-up and right-angle-turned dyadic sources, buffers whose size in CRS units is dyadic"""
+    Affine, GeoBox = mods[0], mods[1]
+    rng = R.rng
+    for _ in range(R.pick(150, 1500)):
+        r = rng.choice([1, 2, 30 * 0.5, 0.25, 1024, 2.0 ** -8, 10])
+        ry = r * rng.choice([1, 1, 2, 0.5])
+        nx, ny = rng.randint(1, 40), rng.randint(1, 40)
+        c, f = rng.randint(-4000, 4000) * r / 4, rng.randint(-4000, 4000) * r / 4
+        k = rng.random()
+        if k < 0.5:
+            A = Affine(r * rng.choice([1, -1]), 0, c, 0, ry * rng.choice([-1, -1, 1]), f)
+        else:
+            A = Affine(0, r * rng.choice([1, -1]), c, ry * rng.choice([1, -1]), 0, f)
+        g = GeoBox((ny, nx), A, rng.choice(["EPSG:3857", "EPSG:32633", "EPSG:4326"]))
+        B = rng.choice([0, 0.25, 0.5, 1, 2, 4])
+        buf = B * max(abs(v) for v in g.resolution.xy)
+        line = f"c11 fpbbox {';'.join(frac_s(v) for v in tuple(A)[:6])} {nx} {ny} {frac_s(buf)}"
+        R.corr(line, lambda: ",".join(frac_s(v) for v in g.footprint(g.crs, buffer=B, npoints=100).boundingbox.bbox),
+               sig=f"fpbbox|{'aligned' if A.b == 0 else 'turned'}|{'mirror' if min(A.a, A.b) < 0 else 'plain'}|buf{B}")
 
 
 def forwarding_oracle(R, mods, g, dst_arg, mode, shape, tight, anchor, tol, rnd, out, case):
@@ -1130,6 +1172,7 @@ def run(R: Run):
     _ARNG[0] = __import__("random").Random(R.rng.getrandbits(32))
     snap_part(R, mods)
     snap_float_part(R, mods)
+    footprint_part(R, mods)
     exact_cog_part(R, mods)
     utm_part(R, mods)
     crs_churn(R, mods, R.pick(320, 1600))
